@@ -158,8 +158,12 @@ def fn(case):
             os.makedirs(os.path.join(target, "staledir", "deep"))
             with open(os.path.join(target, "staledir", "deep", "x"), "w") as f:
                 f.write("old")
-        before = listing(tdir)
         file = os.path.join(tdir, "index.html")
+        if stale != "absent" and caller != "copy_to":
+            # the page itself is being saved a second time: an older, much longer page is already there
+            with open(file, "w", encoding="utf-8") as f:
+                f.write("<html><body>" + "STALE-PAGE-CONTENT <img src=\"lib/old/logo.png\"/>\n" * 400 + "</body></html>\n")
+        before = listing(tdir)
         listed = list(scripts) + ([style] if style else [])
         expect_raise = bool(missing) and local and not all_files
         try:
@@ -207,7 +211,7 @@ def fn(case):
                             viols.append(("copied-file-differs" + when, f"{rel!r} differs from its source", {}))
             else:
                 after = [x for x in listing(tdir) if (x if isinstance(x, str) else x[0]) != "index.html"]
-                if after != before:
+                if after != [x for x in before if (x if isinstance(x, str) else x[0]) != "index.html"]:
                     viols.append(("nonlocal-copied-something" + when, "URL/source-less dependency changed the output directory",
                                   {"after": [a if isinstance(a, str) else a[0] for a in after]}))
         if local and stale == "dir":
@@ -240,6 +244,9 @@ def fn(case):
                               "of render()['html']", {"observed": raw[:300].decode("utf-8", "replace")}))
         if caller != "copy_to":
             text = open(file, encoding="utf-8").read()
+            if "STALE-PAGE-CONTENT" in text or not text.rstrip().endswith("</html>"):
+                viols.append(("saved-file-keeps-old-content", "the file written by save_html() still holds (part of) the longer page "
+                              "that was there before", {"tail": text[-200:]}))
             try:
                 toks = tokenize(text)
             except TokenError as e:
